@@ -262,6 +262,18 @@ def run_single(case, res):
         res.outcome("generated")
         if rot != 0.0 or case["offset"] == 0:
             res["nontrivial"] += 1
+    # one pair of shape objects used for every rotation in turn (as the optimisers do) gives the fields fresh objects give
+    if case.get("reuse_shapes") and len(case["rots"]) > 1:
+        field, ng = _rw.gen_shape(lot, [nogo] if nogo else None)
+        for rot in list(case["rots"]) + list(case["rots"])[:1]:
+            res["evals"] += 1
+            f1, e1 = with_horizon(_rw.gen_borehole_config, field, spacing, spacing, no_go=ng, rotate=rot * math.pi / 180.0)
+            f0, e0 = with_horizon(gen_once, lot, spacing, rot, nogo)
+            if e0 is None and (e1 is not None or np.asarray(f0).shape != np.asarray(f1).shape or not np.array_equal(np.asarray(f0, dtype=float), np.asarray(f1, dtype=float))):
+                res["violations"].append(core.viol("reused_shapes_change_field", dict(case, rots=case["rots"][:case["rots"].index(rot) + 1]), msg=f"lot {lot}, spacing {spacing}: with the shape objects used for earlier rotations, "
+                                                   f"rotation {rot} gives {'an error ' + str(e1) if e1 is not None else str(len(f1)) + ' boreholes'}; fresh shape objects give {len(f0)}", rotation=rot))
+                break
+        res.outcome("reused_shapes")
     # the same outline given with whole numbers as ints (as a JSON input file may) must give the same field
     if case.get("as_int") and all(float(v).is_integer() for p in lot for v in p):
         ilot = [[int(v) for v in p] for p in lot]
@@ -687,7 +699,7 @@ def run_case(case):
                                 res.bump("lot_too_thin_skipped")
                                 continue
                             c = {"kind": "single", "poly": [list(p) for p in poly], "scale": scale, "offset": off, "spacing": s, "rots": case["rots"],
-                                 "translate": case.get("translate"), "as_int": case.get("as_int", False)}
+                                 "translate": case.get("translate"), "as_int": case.get("as_int", False), "reuse_shapes": case.get("as_int", False)}
                             run_single(c, res)
                             if case.get("cw_too") and off == case["offsets"][-1]:
                                 run_single(dict(c, cw=True, translate=None, as_int=False), res)
